@@ -87,6 +87,8 @@ type Flow struct {
 }
 
 type Exec struct {
+	forIdx         types.Object   // init variable of the classic for loop about to be processed
+	loopIdxStack   []types.Object // per active execLoop: its $i variable (nil for none)
 	closureIdx     []*Term // indices of the callee iterations whose callback literal is being executed (innermost last)
 	stmtHintActive map[int]int
 	w              *World
@@ -1087,19 +1089,54 @@ func (ex *Exec) evalBinary(st *State, e *ast.BinaryExpr) *Val {
 		sub := st.clone()
 		ex.assume(sub, l.T)
 		r := ex.eval(sub, e.Y)
-		ex.absorb(st, sub, l.T)
+		ex.joinShortCircuit(st, sub, l.T)
 		return tv(tAnd(l.T, r.T), types.Typ[types.Bool])
 	case token.LOR:
 		l := ex.eval(st, e.X)
 		sub := st.clone()
 		ex.assume(sub, tNot(l.T))
 		r := ex.eval(sub, e.Y)
-		ex.absorb(st, sub, tNot(l.T))
+		ex.joinShortCircuit(st, sub, tNot(l.T))
 		return tv(tOr(l.T, r.T), types.Typ[types.Bool])
 	}
 	l := ex.eval(st, e.X)
 	r := ex.eval(st, e.Y)
 	return ex.binop(st, e.Op.String(), l, r, ex.info.TypeOf(e.X), where)
+}
+
+// joinShortCircuit continues in st after the right operand of && / || was evaluated in sub (= st under cond).
+// A pure right operand leaves the program state alone: only the facts learnt there are kept (as implications).
+// A right operand with side effects (a call that modifies the heap, allocates, or advances an iteration protocol:
+// `if match && !iter(seg, i) {`) changed variables / heap / ghost state in sub: st becomes the merge of sub (cond)
+// and the untouched state (not cond), exactly as for an if statement.
+func (ex *Exec) joinShortCircuit(st, sub *State, cond *Term) {
+	changed := false
+	for k, v := range sub.vars {
+		if w, ok := st.vars[k]; !ok || w != v {
+			changed = true
+			break
+		}
+	}
+	if !changed {
+		for k, v := range sub.ghost {
+			if w, ok := st.ghost[k]; !ok || w != v {
+				changed = true
+				break
+			}
+		}
+	}
+	if !changed {
+		ex.absorb(st, sub, cond)
+		return
+	}
+	other := st.clone()
+	ex.assume(other, tNot(cond))
+	m := ex.merge([]*State{sub, other})
+	if m == nil {
+		st.guard = tFalse
+		return
+	}
+	*st = *m
 }
 
 // absorb facts assumed in sub (under cond) back into st as implications.
@@ -1904,7 +1941,24 @@ func (ex *Exec) execFor(st *State, s *ast.ForStmt) *Flow {
 	if s.Init != nil {
 		ex.execStmt(st, s.Init)
 	}
-	return ex.execLoop(st, n, s, s.Cond, s.Body, s.Post, nil)
+	// `for i := e; ...`: the variable declared by the init statement is also available to the loop's contract as $i
+	// (the name range loops give their index), so that a contract survives a range <-> index-loop rewrite
+	saved := ex.forIdx
+	ex.forIdx = nil
+	if as, ok := s.Init.(*ast.AssignStmt); ok && as.Tok == token.DEFINE && len(as.Lhs) == 1 {
+		if id, ok := as.Lhs[0].(*ast.Ident); ok {
+			if obj := ex.info.Defs[id]; obj != nil && isIntType(obj.Type()) {
+				ex.forIdx = obj
+			}
+		}
+	}
+	idx := ex.forIdx
+	defer func() { ex.forIdx = saved }()
+	var pre func(*State)
+	if idx != nil {
+		pre = func(b *State) { b.ghost["$i"] = b.vars[idx] }
+	}
+	return ex.execLoop(st, n, s, s.Cond, s.Body, s.Post, pre)
 }
 
 // execLoop: generic invariant-based loop rule.
@@ -1914,11 +1968,15 @@ func (ex *Exec) execFor(st *State, s *ast.ForStmt) *Flow {
 //	exit: havoc'd state with invariants and !cond, merged with break states
 func (ex *Exec) execLoop(st *State, n int, node ast.Node, cond ast.Expr, body *ast.BlockStmt, post ast.Stmt, pre func(*State)) *Flow {
 	ls := ex.loopSpec(n)
+	loopIdx := ex.forIdx
+	ex.forIdx = nil // consumed: nested loops set their own
+	ex.loopIdxStack = append(ex.loopIdxStack, loopIdx)
+	defer func() { ex.loopIdxStack = ex.loopIdxStack[:len(ex.loopIdxStack)-1] }()
 	mod := ex.assignedVars(node)
 	iterGhost := ex.iterState
 	// 1. init
 	for i, inv := range ls.Invariants {
-		g := ex.specBool(st, inv.E, nil)
+		g := ex.specBoolWith(st, inv.E, ex.loopBind(st))
 		ex.oblige(st, "inv.init", fmt.Sprintf("inv.loop%d.init.%s", n, clauseName(inv, i)), g, inv.Src)
 	}
 	// 2. havoc
@@ -1955,11 +2013,11 @@ func (ex *Exec) execLoop(st *State, n int, node ast.Node, cond ast.Expr, body *a
 	ex.curLoopUnfold = ls.Unfold
 	defer func() { ex.curLoopUnfold = oldUnfold }()
 	for _, inv := range ls.Invariants {
-		ex.assume(head, ex.specBool(head, inv.E, nil))
+		ex.assume(head, ex.specBoolWith(head, inv.E, ex.loopBind(head)))
 	}
 	var measure0 *Term
 	if ls.Decreases != nil {
-		measure0 = ex.specVal(head, ls.Decreases, nil).T
+		measure0 = ex.specVal(head, ls.Decreases, ex.loopBind(head)).T
 	}
 	exitSt := head.clone()
 	bodySt := head.clone()
@@ -1976,10 +2034,10 @@ func (ex *Exec) execLoop(st *State, n int, node ast.Node, cond ast.Expr, body *a
 	}
 	ex.coverPoint(bodySt, "loopbody", ex.pos(node))
 	for _, u := range ls.BeginUses {
-		ex.applyLemma(bodySt, u, nil)
+		ex.applyLemma(bodySt, u, ex.loopBind(bodySt))
 	}
 	for i, a := range ls.Asserts {
-		g := ex.specBool(bodySt, a.E, nil)
+		g := ex.specBoolWith(bodySt, a.E, ex.loopBind(bodySt))
 		ex.oblige(bodySt, "assert", fmt.Sprintf("assert.loop%d.%s", n, clauseName(a, i)), g, a.Src)
 		ex.assume(bodySt, g)
 	}
@@ -1990,14 +2048,14 @@ func (ex *Exec) execLoop(st *State, n int, node ast.Node, cond ast.Expr, body *a
 			ex.execStmt(back, post)
 		}
 		for _, u := range ls.Uses {
-			ex.applyLemma(back, u, nil)
+			ex.applyLemma(back, u, ex.loopBind(back))
 		}
 		for i, inv := range ls.Invariants {
-			g := ex.specBool(back, inv.E, nil)
+			g := ex.specBoolWith(back, inv.E, ex.loopBind(back))
 			ex.oblige(back, "inv.preserve", fmt.Sprintf("inv.loop%d.preserve.%s", n, clauseName(inv, i)), g, inv.Src)
 		}
 		if measure0 != nil {
-			m1 := ex.specVal(back, ls.Decreases, nil).T
+			m1 := ex.specVal(back, ls.Decreases, ex.loopBind(back)).T
 			ex.oblige(back, "dec", fmt.Sprintf("dec.loop%d", n), tAnd(mk("<=", SBool, intLit(0), measure0), mk("<", SBool, m1, measure0)), "loop measure non-negative and strictly decreasing")
 		} else {
 			o := ex.oblige(back, "dec", fmt.Sprintf("dec.loop%d", n), tFalse, "loop has no decreases clause")
@@ -2006,12 +2064,27 @@ func (ex *Exec) execLoop(st *State, n int, node ast.Node, cond ast.Expr, body *a
 	}
 	if exitSt != nil {
 		for _, u := range ls.Uses {
-			ex.applyLemma(exitSt, u, nil)
+			ex.applyLemma(exitSt, u, ex.loopBind(exitSt))
 		}
 	}
 	out := &Flow{}
 	out.normal = ex.merge(append([]*State{exitSt}, f.breaks...))
 	return out
+}
+
+// loopBind: the extra spec names of the innermost classic for loop being processed ($i = its init variable)
+func (ex *Exec) loopBind(st *State) map[string]*Val {
+	if len(ex.loopIdxStack) == 0 {
+		return nil
+	}
+	idx := ex.loopIdxStack[len(ex.loopIdxStack)-1]
+	if idx == nil || st == nil {
+		return nil
+	}
+	if v, ok := st.vars[idx]; ok {
+		return map[string]*Val{"$i": v}
+	}
+	return nil
 }
 
 func clauseName(c *Clause, i int) string {
